@@ -108,9 +108,17 @@ def run(ctx):
         if okc:
             # envelope: status/reason/message bound to same-named locals
             kw = {k.arg: k.value for k in vals[0].keywords}
-            same = all(isinstance(kw.get(x), ast.Name) and kw[x].id == x for x in ('result_status', 'result_reason', 'result_message', 'response_payload'))
-            ctx.check(same, 'C08.R1', 'KmipEngine._process_batch|result-fields-bound', m.site(c, pb), 'status/reason/message/payload bound to the per-item locals',
-                      'result fields are not bound to the per-item locals')
+            flds = ('result_status', 'result_reason', 'result_message', 'response_payload')
+            same = all(isinstance(kw.get(x), ast.Name) for x in flds) and len(set(kw[x].id for x in flds)) == len(flds)
+            if same:
+                # each is (re)assigned in this iteration before the result is built: a definition inside the loop dominates the construction
+                for x in flds:
+                    dnodes = [dn for var, val, dn in rd.reaching(defn, kw[x].id) if dn is not None]
+                    alld = [nn for nn in g.nodes if nn.kind == 'stmt' and isinstance(nn.stmt, ast.Assign) and any(isinstance(tg, ast.Name) and tg.id == kw[x].id for tg in nn.stmt.targets)]
+                    if not any(loop in dd.loops and g.dominates(dd, defn) for dd in alld) or not dnodes:
+                        same = False
+            ctx.check(same, 'C08.R1', 'KmipEngine._process_batch|result-fields-bound', m.site(c, pb), 'status/reason/message/payload are four per-item locals, each assigned in the iteration before the result is built',
+                      'result fields are not four distinct locals assigned within the iteration that builds the result (a value can carry over from an earlier item)')
     # the per-item try
     opcalls = call_nodes(g, 'self._process_operation')
     ctx.need(len(opcalls) == 1, 'unrecognised construct: expected one _process_operation call in _process_batch')
